@@ -16,6 +16,7 @@ def run(ctx):
     ctx.model("MCDistributor", "NegDistributor_noescape.cfg", workers=4, expect_violation="CapacityNoEscape",
               label="negative self-test: without the 'at most two labels' escape clause the capacity bound is false")
     recs, meta, errors = lc.gather(ctx, ["random", "dense", "bounds", "relayout", "budget"])
+    lc.report_errors(ctx, errors, "C04_")
     lc.check(ctx, "LayoutC04.cfg", recs, meta, "C04_")
     # conformance of the operational model with the observed layerings: drift is reported, never a verdict
     sub = [r for r in recs if r["lattice"] == 1 and r.get("fresh") == 1 and len(r["labels"]) <= 60]
